@@ -32,6 +32,7 @@ VARIABLES st, pend, mon, steps, lastObs, epochs, script
 vars == <<st, pend, mon, steps, lastObs, epochs, script>>
 
 OwnAddr == 1
+SpareAddr == 9
 PeerIds == {<<a, g>> : a \in PeerAddrs, g \in Gens}
 OwnIds == {<<OwnAddr, g>> : g \in Gens \cup {2}}
 AllIds == PeerIds \cup OwnIds
@@ -97,7 +98,7 @@ Mangled(d) == {[d EXCEPT !.hok = FALSE], [d EXCEPT !.len = 5000], [d EXCEPT !.re
 \* datagram classes, chosen component by component (lazily)
 DataCall(class, P(_)) ==
     LET srcs == PeerIds \cup (IF Scope = "tiny" THEN {<<OwnAddr, 0>>} ELSE OwnIds)
-        dsts == {st.id, <<OwnAddr, (Gen(st.id) + 1) % 3>>, <<2, 0>>}
+        dsts == {st.id, <<Addr(st.id), (Gen(st.id) + 1) % 3>>, <<2, 0>>}
     IN CASE class = "proto" ->
               \E s \in Pick(srcs), n \in Pick(IF Scope = "tiny" THEN {0} ELSE {0, 1}), d \in Pick(dsts),
                  m \in Pick(MsgsFor(st.probe.n)) : P(Parsed(Hdr(s, n, d, m), <<>>, <<>>))
@@ -141,7 +142,11 @@ ApiCall(P(_)) ==
                 P(<<"apply_many", [updates |-> <<Mem(i, ui, us)>>, bcast |-> b], 0>>)
         [] kind = "announce" -> \E i \in Pick(PeerIds) : P(<<"announce", [dst |-> i], 0>>)
         [] kind = "change_identity" ->
-             \E g \in Pick({0, 1, 2}) : P(<<"change_identity", [id |-> <<OwnAddr, g>>], 0>>)
+             \* a new generation of the current address or a move to the other one of {OwnAddr, SpareAddr}
+             \* (adopting the address of a live member is a user error: excluded)
+             \E g \in Pick({0, 1, 2}), a \in Pick(IF Scope = "tiny" THEN {Addr(st.id)} ELSE {Addr(st.id), OwnAddr, SpareAddr}) :
+                /\ a = Addr(st.id) \/ ~\E i \in DOMAIN st.mem : Addr(st.mem[i].id) = a /\ st.mem[i].st # "D"
+                /\ P(<<"change_identity", [id |-> <<a, g>>], 0>>)
         [] kind = "add_broadcast" ->
              \E it \in Pick(Items \cup {[key |-> 0, ver |-> 0, sz |-> 0, intact |-> FALSE]}) :
                 P(<<"add_broadcast", [len |-> it.sz, item |-> it], 0>>)
@@ -228,8 +233,8 @@ MonitorsQuiet == \A p \in (MonSet \cap DOMAIN mon) : mon[p].v = {}
 RejectedInputs ==
     LET base == Parsed(Hdr(<<2, 0>>, 0, st.id, Msg("Gossip", 0, NoId)), <<Mem(<<3, 0>>, 1, "S")>>, <<>>)
         own1 == Parsed(Hdr(st.id, 0, st.id, Msg("Gossip", 0, NoId)), <<Mem(<<3, 0>>, 1, "S")>>, <<>>)
-        own2 == Parsed(Hdr(<<OwnAddr, (Gen(st.id) + 1) % 3>>, 0, st.id, Msg("Ping", 1, NoId)), <<>>, <<>>)
-        wrong == Parsed(Hdr(<<2, 0>>, 0, <<OwnAddr, (Gen(st.id) + 1) % 3>>, Msg("Gossip", 0, NoId)), <<Mem(<<3, 0>>, 1, "S")>>, <<>>)
+        own2 == Parsed(Hdr(<<Addr(st.id), (Gen(st.id) + 1) % 3>>, 0, st.id, Msg("Ping", 1, NoId)), <<>>, <<>>)
+        wrong == Parsed(Hdr(<<2, 0>>, 0, <<Addr(st.id), (Gen(st.id) + 1) % 3>>, Msg("Gossip", 0, NoId)), <<Mem(<<3, 0>>, 1, "S")>>, <<>>)
         wrong2 == Parsed(Hdr(<<2, 1>>, 1, <<3, 0>>, Msg("Ping", 1, NoId)), <<>>, <<>>)
         ann == [Parsed(Hdr(<<2, 0>>, 0, st.id, Msg("Announce", 0, NoId)), <<>>, <<>>) EXCEPT !.rem = 2, !.len = @ + 2, !.tally = 0]
         stale == (st.tok + TokenMod - 1) % TokenMod
